@@ -263,6 +263,66 @@ WITNESSES = [
     dict(id="c06-ok-term-wrapper-dict-merge", prop="C06", file=E, expect=None,
          old="        real_term = Mul(*(o.make_real(return_sympy=True)\n                          for o in self.objects))\n        if return_sympy:\n            return real_term\n        assumptions = self.assumptions\n        assumptions['real'] = True\n        return Expr(real_term, **assumptions)",
          new="        real_term = Mul(*(o.make_real(return_sympy=True)\n                          for o in self.objects))\n        if return_sympy:\n            return real_term\n        return Expr(real_term, **{**self.assumptions, 'real': True})"),
+    # ------------------------------------------------------------------ round 4: private helpers are not anchors
+    # every private method that applies the declared symmetry renamed (all levels)
+    dict(id="c06-ok-private-apply-renamed", prop="C06", file=E, expect=None,
+         edits=[("_apply_tensor_braket_sym", "_add_declared_braket_symmetry")] * 11),
+    # the bra-ket comparison as a module level private function, early returns (cf. refactoring 4D2)
+    dict(id="c06-ok-swap-module-function", prop="C06", file=S, expect=None, edits=[
+        ("""class SymbolicTensor(Expr):
+    \"\"\"Base class for symbolic tensors.\"\"\"
+""", """def _lower_group_first(upper, lower) -> bool:
+    if len(upper) != len(lower):
+        raise NotImplementedError("Bra Ket symmetry only implemented "
+                                  "for tensors with an equal amount "
+                                  "of upper and lower indices.")
+    for attr in (lambda s: s.space[0], lambda s: s.spin,
+                 lambda s: (int(s.name[1:]) if s.name[1:] else 0, s.name[0])):
+        key_u, key_l = [attr(s) for s in upper], [attr(s) for s in lower]
+        if key_l != key_u:
+            return key_l < key_u
+    return False
+
+
+class SymbolicTensor(Expr):
+    \"\"\"Base class for symbolic tensors.\"\"\"
+"""),
+        ("            if cls._need_bra_ket_swap(upper, lower):\n                upper, lower = lower, upper  # swap\n                if bra_ket_sym is S.NegativeOne:  # add another -1",
+         "            if _lower_group_first(upper, lower):\n                upper, lower = lower, upper  # swap\n                if bra_ket_sym is S.NegativeOne:  # add another -1"),
+        ("            if cls._need_bra_ket_swap(upper, lower):\n                upper, lower = lower, upper  # swap\n                if bra_ket_sym is S.NegativeOne:\n                    negative_sign = True",
+         "            if _lower_group_first(upper, lower):\n                upper, lower = lower, upper  # swap\n                if bra_ket_sym is S.NegativeOne:\n                    negative_sign = True")]),
+    # the Term level of the symmetry application as a module level private function that looks into the objects itself
+    dict(id="c06-ok-term-level-module-function", prop="C06", file=E, expect=None, edits=[
+        ("class Expr(Container):\n    \"\"\"\n    Wrapper for an algebraic expression.",
+         "def _term_with_braket_sym(term):\n    factors = []\n    for o in term.objects:\n        if o.sympy.is_number:  # nothing to canonicalise\n            factors.append(o.sympy)\n        else:\n            factors.append(o._apply_tensor_braket_sym(return_sympy=True))\n    return Mul(*factors)\n\n\nclass Expr(Container):\n    \"\"\"\n    Wrapper for an algebraic expression."),
+        ("        expr_with_sym = Add(*[t._apply_tensor_braket_sym(return_sympy=True)\n                              for t in self.terms])",
+         "        expr_with_sym = Add(*[_term_with_braket_sym(t) for t in self.terms])")]),
+    # breaking counterparts
+    dict(id="c06-swap-module-function-names-only", prop="C06", file=S, expect=["R06a", "R06b"], edits=[
+        ("""class SymbolicTensor(Expr):
+    \"\"\"Base class for symbolic tensors.\"\"\"
+""", """def _lower_group_first(upper, lower) -> bool:
+    if len(upper) != len(lower):
+        raise NotImplementedError("Bra Ket symmetry only implemented "
+                                  "for tensors with an equal amount "
+                                  "of upper and lower indices.")
+    for attr in (lambda s: s.space[0], lambda s: s.spin, lambda s: s.name[0]):
+        key_u, key_l = [attr(s) for s in upper], [attr(s) for s in lower]
+        if key_l != key_u:
+            return key_l < key_u
+    return False
+
+
+class SymbolicTensor(Expr):
+    \"\"\"Base class for symbolic tensors.\"\"\"
+"""),
+        ("            if cls._need_bra_ket_swap(upper, lower):\n                upper, lower = lower, upper  # swap\n                if bra_ket_sym is S.NegativeOne:  # add another -1",
+         "            if _lower_group_first(upper, lower):\n                upper, lower = lower, upper  # swap\n                if bra_ket_sym is S.NegativeOne:  # add another -1")]),
+    dict(id="c06-term-level-module-function-skips-polynoms", prop="C06", file=E, expect=["R06e", "R06f"], edits=[
+        ("class Expr(Container):\n    \"\"\"\n    Wrapper for an algebraic expression.",
+         "def _term_with_braket_sym(term):\n    factors = []\n    for o in term.objects:\n        if not isinstance(o.base, SymbolicTensor):  # nothing to canonicalise\n            factors.append(o.sympy)\n        else:\n            factors.append(o._apply_tensor_braket_sym(return_sympy=True))\n    return Mul(*factors)\n\n\nclass Expr(Container):\n    \"\"\"\n    Wrapper for an algebraic expression."),
+        ("        expr_with_sym = Add(*[t._apply_tensor_braket_sym(return_sympy=True)\n                              for t in self.terms])",
+         "        expr_with_sym = Add(*[_term_with_braket_sym(t) for t in self.terms])")]),
     # ------------------------------------------------------------------ breaking witnesses for the new checks
     dict(id="c06-amplitude-own-ordering", prop="C06", file=S, expect=["R06a", "R06b"],
          old="""    @property
